@@ -219,7 +219,7 @@ def errkind_inventory(F, R):
         "flatty_base::utils::iter::TypeIter::check_align_and_min_size": ["BadAlign", "InsufficientSize"],
         "<flatty_containers::vec::FlatVec<T, L> as flatty_base::traits::FlatValidate>::validate_unchecked": ["InsufficientSize"],
         "<flatty_containers::string::FlatString<L> as flatty_base::traits::FlatValidate>::validate_unchecked": ["InsufficientSize", "InvalidData"],
-        "<flatty_containers::flex::DataIter<'a, T, L, D> as core::iter::traits::iterator::Iterator>::next": ["InsufficientSize", "InsufficientSize", "InvalidData"],
+        "<flatty_containers::flex::DataIter<'a, T, L, D> as core::iter::traits::iterator::Iterator>::next": ["InsufficientSize", "InsufficientSize", "InvalidData", "InvalidData"],
         "<flatty_containers::flex::FromIterator<T, E, I> as flatty_base::emplacer::Emplacer<flatty_containers::flex::FlexVec<T, L>>>::emplace_unchecked": ["InsufficientSize", "InsufficientSize"],
         "flatty_containers::flex::FlexVec::<T, L>::push": ["InsufficientSize", "InsufficientSize"],
         # content error: the shortfall of a SEALED item (fixed extent) is re-classified, see K1.sealed-shortfall
